@@ -465,8 +465,13 @@ class PeerConnection:
 
     @property
     def lifetime(self) -> int:
-        """Seconds since the connection was accepted or dialled."""
+        """Seconds since the connection was accepted or, for an outgoing
+        connection, since its socket became connected."""
         return int(time.time()) - self._created
+
+    def reset_lifetime(self):
+        """Mark that the transport connection has been established."""
+        self._created = int(time.time())
 
     @property
     def last_read_since(self) -> int:
